@@ -172,7 +172,8 @@ func (ex *Exec) promCall(fr *frame, fn *ssa.Function, args []Value) Value {
 // ---- backoff / context / time ----
 
 type BackoffObj struct {
-	ctx Value // Iface context or nil
+	ctx   Value // Iface context or nil
+	inner Value // the wrapped BackOff (Iface), if any
 }
 
 func (b *BackoffObj) HasMethod(name string) bool {
@@ -261,7 +262,7 @@ func registerEnvStubs() {
 		return bo(ex)
 	}
 	stubTable["github.com/cenkalti/backoff/v4.WithContext"] = func(ex *Exec, fr *frame, args []Value) Value {
-		return Iface{t: ex.eng.namedType("github.com/cenkalti/backoff/v4", "backOffContext", true), v: &BackoffObj{ctx: args[1]}}
+		return Iface{t: ex.eng.namedType("github.com/cenkalti/backoff/v4", "backOffContext", true), v: &BackoffObj{ctx: args[1], inner: args[0]}}
 	}
 	stubTable["github.com/cenkalti/backoff/v4.Retry"] = func(ex *Exec, fr *frame, args []Value) Value {
 		return ex.backoffRetry(fr, args[0], args[1])
@@ -294,8 +295,9 @@ func registerEnvStubs() {
 	stubTable["context.TODO"] = stubTable["context.Background"]
 }
 
-// ctxDone reports whether a stub context chain has been cancelled.
-func ctxDone(v Value) bool {
+// ctxDone reports whether a stub context chain is cancelled or (in logical-clock mode)
+// past its deadline.
+func (ex *Exec) ctxDone(v Value) bool {
 	for {
 		iv, ok := v.(Iface)
 		if !ok || iv.t == nil {
@@ -308,37 +310,68 @@ func ctxDone(v Value) bool {
 		if c.cancelled {
 			return true
 		}
+		if c.deadline != nil && ex.clock != nil {
+			if ex.branch(ex.tt.Cmp(OSle, c.deadline, ex.clock)) {
+				return true
+			}
+		}
 		v = c.parent
 	}
 }
 
-// backoffRetry models backoff.Retry(op, b) of cenkalti/backoff v4.3.0 without timers:
-// call op until it succeeds or the context attached to b is done (the harness's fake
-// transport decides when that happens by calling the cancel function). The policy's
-// own stop (MaxElapsedTime, 15 minutes) is outside the bound. More than retryBound
-// failed attempts end the path as UNWIND (inconclusive, never success).
+// backoffRetry models backoff.Retry(op, b) of cenkalti/backoff v4.3.0. Without a logical
+// clock: call op until it succeeds or the context attached to b is done. With a logical
+// clock (C13): after a failed attempt the policy's NextBackOff() is slept, or, if the
+// attached context's deadline comes first, the clock moves to the deadline and the
+// context's error is returned - exactly the select between the timer and ctx.Done(). A
+// back-off without an attached context sleeps regardless of any context. The policy's own
+// stop (MaxElapsedTime, 15 minutes) is outside the bound; more than retryBound failed
+// attempts end the path as UNWIND (inconclusive, never success).
 func (ex *Exec) backoffRetry(fr *frame, op Value, b Value) Value {
-	var ctx Value
+	var ctx, inner Value
+	inner = b
 	if iv, ok := b.(Iface); ok {
 		if bo, ok := iv.v.(*BackoffObj); ok {
 			ctx = bo.ctx
+			if bo.inner != nil {
+				inner = bo.inner
+			}
 		}
 	}
 	bound := ex.retryBound
 	if bound <= 0 {
 		bound = 4
 	}
+	tt := ex.tt
 	for i := 1; ; i++ {
 		ex.retryAttempts++
 		err := ex.callValue(fr, op, nil, 0)
 		if e, ok := err.(Iface); ok && e.t == nil {
 			return nilErr()
 		}
-		if ctxDone(ctx) {
-			return ex.mkError("context canceled", nil)
+		if ex.ctxDone(ctx) {
+			return ex.mkError("context done", nil)
 		}
 		if i >= bound {
 			panic(&pathEnd{reason: "unwind", detail: fmt.Sprintf("backoff.Retry: more than %d failed attempts without the context ending", bound)})
+		}
+		if ex.clock != nil {
+			next := tt.BV(64, 0)
+			if iv, ok := inner.(Iface); ok && iv.t != nil {
+				if _, stub := iv.v.(StubObject); !stub {
+					if m := ex.eng.prog.LookupMethod(iv.t, nil, "NextBackOff"); m != nil {
+						next = ex.callFunction(fr, m, []Value{iv.v}, nil, 0).(*Term)
+					}
+				}
+			}
+			wake := tt.Bin(OAdd, ex.clock, next)
+			if dl := ex.ctxDeadline(ctx); dl != nil {
+				if ex.branch(tt.Cmp(OSle, dl, wake)) {
+					ex.clock = dl
+					return ex.mkError("context deadline exceeded", nil)
+				}
+			}
+			ex.clock = wake
 		}
 	}
 }
